@@ -781,16 +781,65 @@ func ruleC16Order(cx *Ctx) {
 	if maint == nil || dwb == nil || rt == nil {
 		return
 	}
-	var d, r ssa.Instruction
-	allInstrs(maint, func(in ssa.Instruction) {
-		if isCallTo(in, dwb) {
-			d = in
+	tryPop := cx.need(rule, queuePkg, "MPSC", "TryPop")
+	if tryPop == nil {
+		return
+	}
+	_ = dwb
+	ok := drainBeforeTask(maint, ssa.Value(bparam(maint, 1)), rt, tryPop, 0)
+	cx.R.Check(ok, rule, funcName(maint), "drain ≺ own task", cx.P.Pos(maint.Pos()), "the step that pops the write buffer precedes runTask(own task) - in maintenance or in the helper both were handed to: events of one producer are consumed in submission order")
+}
+
+// drainBeforeTask: in fn the task value p is run (runTask(p), or a helper that receives p) only after a step that drains
+// the write buffer (calls TryPop, or reaches it) - or the helper that receives p establishes that order itself.
+func drainBeforeTask(fn *ssa.Function, p ssa.Value, rt, tryPop *ssa.Function, depth int) bool {
+	if depth > 2 || len(fn.Blocks) == 0 {
+		return false
+	}
+	var r ssa.Instruction
+	var helper *ssa.Function
+	hi := -1
+	allInstrs(fn, func(in ssa.Instruction) {
+		cc := callCommon(in)
+		g := calleeOf(in)
+		if cc == nil || g == nil {
+			return
 		}
-		if isCallTo(in, rt) {
-			r = in
+		for i, a := range cc.Args {
+			if a != p {
+				continue
+			}
+			if origin(g) == origin(rt) {
+				r, helper = in, nil
+			} else if r == nil && g.Pkg != nil && strings.HasPrefix(g.Pkg.Pkg.Path(), modPath) && len(origin(g).Blocks) > 0 {
+				r, helper, hi = in, origin(g), i
+			}
 		}
 	})
-	cx.R.Check(d != nil && r != nil && instrDominates(d, r), rule, funcName(maint), "drain ≺ own task", cx.P.Pos(maint.Pos()), "drainWriteBuffer precedes runTask(t): events of one producer are consumed in submission order")
+	if r == nil {
+		return false
+	}
+	pops := func(in ssa.Instruction) bool { return isCallTo(in, tryPop) }
+	found := false
+	allInstrs(fn, func(in ssa.Instruction) {
+		if in == r || found {
+			return
+		}
+		drains := pops(in)
+		if c := calleeOf(in); !drains && c != nil && c.Pkg != nil && strings.HasPrefix(c.Pkg.Pkg.Path(), modPath) && origin(c) != origin(rt) {
+			drains, _ = reachesInstr(c, pops, map[*ssa.Function]bool{}, nil)
+		}
+		if drains && instrDominates(in, r) {
+			found = true
+		}
+	})
+	if found {
+		return true
+	}
+	if helper != nil && hi < len(helper.Params) {
+		return drainBeforeTask(helper, helper.Params[hi], rt, tryPop, depth+1)
+	}
+	return false
 }
 
 // ruleC16Consume: an event taken out of the write buffer is applied.
